@@ -162,6 +162,26 @@ SIZED = [
     ("Array-call", "Array({N})"),
     ("Array.length-assign", "(function () { var a = []; a.length = {N}; return a; })()"),
     ("Array.from-length", "Array.from({ length: {N} })"),
+    # every other writer of an array's length / far-out elements (each has its own path to the element storage)
+    ("Array.length-Reflect.set", "(function () { var a = [1]; Reflect.set(a, 'length', {N}); return a.length; })()"),
+    ("Array.length-Object.assign", "(function () { var a = [1]; Object.assign(a, { length: {N} }); return a.length; })()"),
+    ("Array.length-proxy-set", "(function () { var a = [1]; var p = new Proxy(a, {}); p.length = {N}; return a.length; })()"),
+    ("Array.length-defineProperty", "(function () { var a = [1]; Object.defineProperty(a, 'length', { value: {N} }); return a.length; })()"),
+    ("Array.length-computed-key", "(function () { var a = [1]; var k = 'len' + 'gth'; a[k] = {N}; return a.length; })()"),
+    ("Array.length-compound", "(function () { var a = [1]; a.length += {N}; return a.length; })()"),
+    ("Array.length-spread-into-class-field", "(function () { class C { a = [1]; grow(n) { this.a.length = n; return this.a.length; } } return new C().grow({N}); })()"),
+    ("Array.index-Reflect.set", "(function () { var a = []; Reflect.set(a, {N} - 2, 1); return a.length; })()"),
+    ("Array.index-Object.assign", "(function () { var a = []; var o = {}; o[{N} - 2] = 1; Object.assign(a, o); return a.length; })()"),
+    ("Array.index-defineProperty", "(function () { var a = []; Object.defineProperty(a, {N} - 2, { value: 1, writable: true, enumerable: true, configurable: true }); return a.length; })()"),
+    ("Array.index-proxy-set", "(function () { var a = []; var p = new Proxy(a, {}); p[{N} - 2] = 1; return a.length; })()"),
+    ("Array.push-apply-sized", "(function () { var a = []; a.push.apply(a, new Array({N})); return a.length; })()"),
+    ("Array.unshift-spread-sized", "(function () { var a = []; a.unshift(...new Array({N})); return a.length; })()"),
+    ("Array.splice-insert-sized", "(function () { var a = []; a.splice(0, 0, ...new Array({N})); return a.length; })()"),
+    ("Array.of-length-then-fill", "(function () { var a = Array.of(1); a.length = {N}; a.fill(0); return a.length; })()"),
+    ("Array.toSpliced-count", "[1, 2, 3].toSpliced(0, {N}).length"),
+    ("Array.with-index", "(function () { try { return [1, 2, 3].with({N}, 0).length; } catch (e) { return e.name; } })()"),
+    ("String.repeat-via-join", "new Array(2).join('x'.repeat(3)).repeat({N}).length"),
+    ("TypedArray-like-from-length", "Array.from({ length: {N} }, function (v, i) { return i; }).length"),
     ("Array.fill-sized", "new Array({N}).fill(0)"),
     ("Array.join-sized", "new Array({N}).join('x')"),
     ("Array.index-assign", "(function () { var a = []; a[{N} - 2] = 1; return a; })()"),
